@@ -135,7 +135,73 @@ func ruleDomainSML(p *Prog, r *Report) {
 				}})
 		}
 	}
+	ellipsisNumbering(p, r, rule)
 	r.Floor(rule, 6)
+}
+
+// ellipsisNumbering: the parser numbers the ellipses of a message in the order
+// they appear in the text ("...[0]" is the first ellipsis token), also when a
+// list with an ellipsis of its own follows the ellipsis of the enclosing list.
+// The item lexer and the item parser are evaluated on such texts; the strings
+// handed to NewListNode are compared with the order of appearance.
+func ellipsisNumbering(p *Prog, r *Report, rule string) {
+	key := rule + ":sml.parseList:ellipsis-numbering"
+	fn := p.Func("sml", "(*parser).parseDataItem")
+	if fn == nil {
+		r.unk(rule, key, "", "(*parser).parseDataItem not found")
+		return
+	}
+	pos := p.Pos(fn.Pos())
+	type want struct{ outer, inner string }
+	cases := []struct {
+		text string
+		// the ellipsis string each NewListNode call must receive, in call order
+		// (inner lists are built before the list that holds them)
+		lists []string
+	}{
+		{`<L <A x> ... <L <A y> ...>>`, []string{"...[1]", "...[0]"}},
+		{`<L <L <A y> ...> <A x> ...>`, []string{"...[0]", "...[1]"}},
+		{`<L <A v1> ... <L <A v2> ... <L <A v3> ...>>>`, []string{"...[2]", "...[1]", "...[0]"}},
+	}
+	var bad, undec []string
+	for _, c := range cases {
+		toks, ok := lexAll(p, "lexMessageText", c.text+" .", 200)
+		if !ok {
+			undec = append(undec, fmt.Sprintf("the text %q could not be lexed by evaluation", c.text))
+			continue
+		}
+		obs, diags, ok := parseRun(p, fn, toks, 4)
+		if !ok {
+			undec = append(undec, fmt.Sprintf("the item parser could not be evaluated on %q", c.text))
+			continue
+		}
+		var got []string
+		for _, o := range obs {
+			if o.factory != "NewListNode" {
+				continue
+			}
+			e := "-"
+			for _, v := range o.elems {
+				if v.K == KIface && v.Inner != nil && v.Inner.K == KStr && strings.HasPrefix(v.Inner.S, "...") {
+					e = v.Inner.S
+				}
+			}
+			got = append(got, e)
+		}
+		if len(diags) > 0 {
+			bad = append(bad, fmt.Sprintf("%s is diagnosed: %v", c.text, diags))
+		} else if strings.Join(got, " ") != strings.Join(c.lists, " ") {
+			bad = append(bad, fmt.Sprintf("in %s the lists are built (innermost first) with the ellipses %v, expected %v: an ellipsis must be numbered by its place in the text", c.text, got, c.lists))
+		}
+	}
+	switch {
+	case len(bad) > 0:
+		r.bad(rule, key, pos, strings.Join(firstN(bad, 2), "; "))
+	case len(undec) > 0:
+		r.unk(rule, key, pos, strings.Join(firstN(undec, 2), "; "))
+	default:
+		r.ok(rule, key, pos, fmt.Sprintf("the lexer and the item parser evaluated on %d nested lists with two and three ellipses: every ellipsis is numbered by its place in the text, whether the nested list comes before or after the enclosing list's ellipsis", len(cases)))
+	}
 }
 
 func smlConst(p *Prog, name string) (int64, bool) {
